@@ -137,18 +137,30 @@ fn check_ns_validation(l: &mut Local, ns: u32, y: i32) {
         TimeZoneRef::new(&[], &types, &[], &alt).unwrap(),
         TimeZoneRef::new(&transitions, &types, &[], &alt).unwrap_or(TimeZoneRef::utc()),
     ];
-    let mut results: Vec<(&str, bool)> = vec![];
-    results.push(("UtcDateTime::new", facade::utc_new(y, 6, 15, 12, 0, 0, ns).is_ok()));
-    results.push(("DateTime::new", facade::dt_new(y, 6, 15, 12, 0, 0, ns, ltt).is_ok()));
+    let mut results: Vec<(String, bool)> = vec![];
+    // the nanosecond argument is refused whatever the other (valid) fields are: an ordinary day, the days whose
+    // validity depends on the year or the month (Feb 29 of a leap year, Feb 28, the 30th / 31st), the first and last
+    // second of the year, second 60
+    let leap = (y % 4 == 0 && y % 100 != 0) || y % 400 == 0;
+    let mut dates: Vec<(u8, u8, u8, u8, u8)> = vec![(6, 15, 12, 0, 0), (12, 25, 12, 0, 0), (2, 28, 23, 59, 59), (1, 1, 0, 0, 0), (12, 31, 23, 59, 60), (4, 30, 1, 2, 3), (1, 31, 0, 0, 60)];
+    if leap {
+        dates.push((2, 29, 12, 30, 15));
+        dates.push((2, 29, 23, 59, 60));
+        l.class("ns_validation_on_feb_29");
+    }
+    for &(mo, d, h, mi, sec) in &dates {
+        results.push((format!("UtcDateTime::new({}, {}, {}, {}, {}, {}", y, mo, d, h, mi, sec), facade::utc_new(y, mo, d, h, mi, sec, ns).is_ok()));
+        results.push((format!("DateTime::new({}, {}, {}, {}, {}, {}", y, mo, d, h, mi, sec), facade::dt_new(y, mo, d, h, mi, sec, ns, ltt).is_ok()));
+    }
     for tz in tzs {
         // a rule-less table has no type after its last transition: search a date it covers (1969) as well
-        for yy in [y, 1969] {
-            let f = facade::find(yy, 12, 25, 12, 0, 0, ns, tz);
+        for (yy, mo, d, h, mi, sec) in dates.iter().map(|&(mo, d, h, mi, sec)| (y, mo, d, h, mi, sec)).chain([(1969, 12, 25, 12, 0, 0), (1968, 2, 29, 12, 0, 0)]) {
+            let f = facade::find(yy, mo, d, h, mi, sec, ns, tz);
             let mut buf = [None; 2];
-            let g = facade::find_n(&mut buf, yy, 12, 25, 12, 0, 0, ns, tz).map(|r| r.count());
+            let g = facade::find_n(&mut buf, yy, mo, d, h, mi, sec, ns, tz).map(|r| r.count());
             // an accepted search may be empty (no type there); a refused one must be refused for the nanoseconds
-            results.push(("DateTime::find", if expect_ok { f.is_ok() } else { matches!(f, Ok(_)) }));
-            results.push(("DateTime::find_n", if expect_ok { g.is_ok() } else { g.is_ok() }));
+            results.push((format!("DateTime::find({}, {}, {}, {}, {}, {}", yy, mo, d, h, mi, sec), f.is_ok()));
+            results.push((format!("DateTime::find_n({}, {}, {}, {}, {}, {}", yy, mo, d, h, mi, sec), g.is_ok()));
             if let Ok(list) = &f {
                 for k in list.clone().into_inner() {
                     if let tz::datetime::FoundDateTimeKind::Normal(d) = k {
@@ -162,7 +174,7 @@ fn check_ns_validation(l: &mut Local, ns: u32, y: i32) {
     }
     for (name, ok) in results {
         if ok != expect_ok {
-            l.violation("nanosecond argument validation", format!("{}(.., ns = {})", name, ns), if expect_ok { "Ok".into() } else { "Err".into() }, if ok { "Ok".into() } else { "Err".into() });
+            l.violation("nanosecond argument validation", format!("{}, ns = {}, ..)", name, ns), if expect_ok { "Ok".into() } else { "Err".into() }, if ok { "Ok".into() } else { "Err".into() });
         }
     }
     l.class(if expect_ok { "ns_below_1e9_accepted" } else { "ns_at_or_above_1e9_refused" });
@@ -205,6 +217,14 @@ pub fn edges() -> Vec<i128> {
             v.push(-(1i128 << k) + e);
         }
     }
+    // second counts that are k * 2^64 away from an in-range one (what a narrowing conversion to i64 would wrap to)
+    for k in [1i128, -1, 2, -2, 3, 1 << 20, 9_223_372_036, -9_223_372_036] {
+        for s_in in [0i128, cal::min_unix() as i128, cal::max_unix() as i128, 951868800, -1] {
+            for frac in [0i128, 999_999_999] {
+                v.push((k * (1i128 << 64) + s_in) * G + frac);
+            }
+        }
+    }
     for s in [9_223_372_036i128, -9_223_372_037, 9_223_372_037, -9_223_372_036, 4_294_967_296, -4_294_967_296, 2_147_483_648, -2_147_483_648] {
         for frac in [0i128, 1, 854_775_807, 854_775_808, 854_775_809, 145_224_192, 145_224_191, 999_999_999] {
             v.push(s * G + frac);
@@ -219,7 +239,18 @@ pub fn run(ctx: &Ctx) -> Report {
                 Enumerated: k*1e9 + e for k at 0, +-1, +-2, both range ends +-1, i64 extremes +-1, e in {0, +-1, +-2, +-999999999, 5e8}; i128 extremes; ns arguments around 1e9 for the validating constructors. Random: half log-uniform, half uniform in the success range, both signs. \
                 distinct_nontrivial = distinct counts n."
         .into();
-    rep.required_classes = vec!["negative_non_multiple", "negative_multiple", "zero_crossing", "range_edge", "i128_extreme", "seconds_beyond_i64", "ns_below_1e9_accepted", "ns_at_or_above_1e9_refused", "zone_constructor_negative_fractional_near_switch"];
+    rep.required_classes = vec![
+        "negative_non_multiple",
+        "negative_multiple",
+        "zero_crossing",
+        "range_edge",
+        "i128_extreme",
+        "seconds_beyond_i64",
+        "ns_below_1e9_accepted",
+        "ns_at_or_above_1e9_refused",
+        "ns_validation_on_feb_29",
+        "zone_constructor_negative_fractional_near_switch",
+    ];
     if let Err(e) = cal::self_test() {
         rep.inconclusive.push(format!("model self-test failed: {}", e));
         return rep;
@@ -283,7 +314,12 @@ pub fn run(ctx: &Ctx) -> Report {
                     cmp_dt(l, "DateTime::from_total_nanoseconds(.., generated zone)", n, &a, &bb);
                     if let Ok(d) = &a {
                         if d.total_nanoseconds() != n {
-                            l.violation("nanosecond split: DateTime::total_nanoseconds() does not give the count back", format!("DateTime::from_total_nanoseconds({}, {})", n, z.describe()), format!("{}", n), format!("{}", d.total_nanoseconds()));
+                            l.violation(
+                                "nanosecond split: DateTime::total_nanoseconds() does not give the count back",
+                                format!("DateTime::from_total_nanoseconds({}, {})", n, z.describe()),
+                                format!("{}", n),
+                                format!("{}", d.total_nanoseconds()),
+                            );
                         }
                         if n < 0 && frac != 0 {
                             l.class("zone_constructor_negative_fractional_near_switch");
@@ -297,9 +333,9 @@ pub fn run(ctx: &Ctx) -> Report {
         l.op_n("from_total_nanoseconds (zone) vs from_timespec (zone)", 2 * k);
     });
     let nss: [u32; 9] = [0, 1, 999_999_998, 999_999_999, 1_000_000_000, 1_000_000_001, 2_000_000_000, u32::MAX - 1, u32::MAX];
-    run_enum(ctx, &mut rep, 3, nss.len() as u64 * 4, |l, _rng, i| {
-        check_ns_validation(l, nss[(i % 9) as usize], [1970, 2024, -5000, 100000][(i / 9) as usize]);
-        l.op_n("ns validation (constructors and the search on five zone shapes)", 22);
+    run_enum(ctx, &mut rep, 3, nss.len() as u64 * 6, |l, _rng, i| {
+        check_ns_validation(l, nss[(i % 9) as usize], [1970, 2024, -5000, 100000, 2000, -4][(i / 9) as usize]);
+        l.op_n("ns validation (constructors and the search on five zone shapes)", 110);
         l.distinct_enumerated += 1;
     });
     rep
